@@ -1,7 +1,7 @@
 use super::{Event, Id, Kind, Pubkey, Tags, Time};
 use crate::error::{Error, InnerError};
 use crate::json::json_parse::*;
-use crate::json::json_unescape;
+use crate::json::{json_escape, json_unescape};
 use crate::json::put;
 use std::fmt;
 use std::ops::{Deref, DerefMut};
@@ -434,7 +434,7 @@ impl Filter {
                             output.push(b',');
                         }
                         output.push(b'"');
-                        output.extend(bytes);
+                        output = json_escape(bytes, output)?;
                         output.push(b'"');
                     }
                 }
